@@ -16,7 +16,10 @@ SlowCallbackOK == /\ R.res \in {"timeout", "result"}
 \* many concurrent calls on one connection (see runConcurrentEcho): every call has an inbox of its own and is answered
 \* with the response to its own request
 EchoOK == R.wrong = 0 /\ R.shared = 0      \* (a time-out alone, without a shared inbox, says the machine was busy)
-RecordOK == IF R.judge = "slowcb" THEN SlowCallbackOK ELSE IF R.judge = "echo" THEN EchoOK ELSE
+\* t0 pre-responses (500, 501, ... ms) and the response back to back: the response is returned and by then the callbacks
+\* have been told every extension, in order
+BackToBackOK == R.res = "result" /\ R.ext = [i \in 1..R.t0 |-> 499 + i]
+RecordOK == IF R.judge = "backtoback" THEN BackToBackOK ELSE IF R.judge = "slowcb" THEN SlowCallbackOK ELSE IF R.judge = "echo" THEN EchoOK ELSE
             /\ R.res = Ref.res
             /\ R.ext = Ref.ext
             /\ R.released                      \* the inbox subscription was released when SendRequest returned
